@@ -1,14 +1,66 @@
 //! Conformance harness binary: C25 encodings, C26 compact node hashing.
+//!
+//!   vh-enc replay <in.ndjson> <out.ndjson>     one input description per line (cases printed by TLC from
+//!                                              MC_Encoding, or the input part of a recorded event) ->
+//!                                              one event per line: input + what the real code returned
+//!   vh-enc record <out.ndjson> <n> c25|c26     seeded random / boundary inputs at real sizes, run the same
+//!                                              way; the events are validated by EncodingTrace.tla
+//!
+//! Observations only (Ok(value) / Err / panic, never error text); the verdict is decided by the model.
+mod limbs;
+mod record;
+mod run;
+
 use anyhow::{anyhow, Result};
+use rayon::prelude::*;
+use serde_json::Value;
+use std::fs;
+use std::io::Write;
 
 pub fn seed() -> u64 {
     std::env::var("VERIF_SEED").ok().and_then(|s| s.parse().ok()).unwrap_or(1)
 }
 
+fn run_all(inputs: &[Value], outp: &str) -> Result<()> {
+    // big cases allocate a few MiB each: keep them sequential-ish by chunking
+    let events: Vec<Value> = inputs.par_iter().with_max_len(8).map(run::run).collect();
+    let mut f = std::io::BufWriter::new(fs::File::create(outp)?);
+    for e in &events {
+        if let Some(t) = e.get("tool_error") {
+            return Err(anyhow!("{}", t));
+        }
+        writeln!(f, "{}", e)?;
+    }
+    f.flush()?;
+    Ok(())
+}
+
 fn main() -> Result<()> {
+    // panics of the code under test are data, not noise
+    std::panic::set_hook(Box::new(|info| {
+        if limbs::IN_REPO.with(|c| c.get()) == 0 {
+            eprintln!("vh-enc: harness panic: {info}");
+        }
+    }));
     let args: Vec<String> = std::env::args().collect();
     let cmd = args.get(1).map(|s| s.as_str()).unwrap_or("");
     match cmd {
+        "replay" => {
+            let inputs: Vec<Value> = fs::read_to_string(&args[2])?
+                .lines()
+                .filter(|l| !l.trim().is_empty())
+                .map(serde_json::from_str)
+                .collect::<Result<_, _>>()?;
+            run_all(&inputs, &args[3])
+        }
+        "record" => {
+            let n: usize = args[3].parse()?;
+            let inputs = record::inputs(&args[4], n);
+            if inputs.is_empty() {
+                return Err(anyhow!("nothing to record for {}", args[4]));
+            }
+            run_all(&inputs, &args[2])
+        }
         _ => Err(anyhow!("unknown subcommand {cmd}")),
     }
 }
